@@ -399,8 +399,23 @@ pub fn crypt_file_case(fc: &FileCase, thorough: bool, out: &mut Vec<Finding>, st
 struct IoCase<'a> {
     e: &'a Entry,
     val: &'a Val,
+    /// version of the program (and, for writes, of the data)
     ver: u32,
+    /// version of the data that is read (an older file read by the newest program when < ver)
+    file_ver: u32,
     c: Container,
+    /// the (older) definition that wrote the file, when it is not `e` itself
+    writer: Option<&'a Entry>,
+}
+impl IoCase<'_> {
+    /// what the loader is told: headered containers carry the file version themselves
+    fn load_ver(&self) -> u32 {
+        if self.c == Container::Bare {
+            self.file_ver
+        } else {
+            self.ver
+        }
+    }
 }
 
 fn io_fail(out: &mut Vec<Finding>, oracle: &str, ic: &IoCase, side: &str, plan: &Plan, msg: String) {
@@ -410,9 +425,9 @@ fn io_fail(out: &mut Vec<Finding>, oracle: &str, ic: &IoCase, side: &str, plan: 
         &["C08"],
         oracle,
         &[("container", format!("{:?}", ic.c)), ("side", side.to_string()), ("deviations", kinds.join(",")), ("type_features", ic.e.ty.feature_string())],
-        format!("{} {:?} {} plan[{}] chunks{:?}: {}", ic.e.ty.describe(), ic.c, side, devs.join(" "), plan.chunks, msg),
-        json!({"kind": "io", "family": ic.e.family, "rust_type": ic.e.ty.rust(), "type": ic.e.ty.describe(), "version": ic.ver, "container": format!("{:?}", ic.c), "side": side,
-            "devs": plan.devs.iter().map(|(i, d)| json!([i, format!("{:?}", d)])).collect::<Vec<_>>(), "chunks": plan.chunks, "value": to_json(ic.val), "message": msg}),
+        format!("{} {:?} {} plan[{}]{} chunks{:?}: {}", ic.e.ty.describe(), ic.c, side, devs.join(" "), if plan.sticky { "" } else { " (transient)" }, plan.chunks, msg),
+        json!({"kind": "io", "family": ic.e.family, "rust_type": ic.e.ty.rust(), "type": ic.e.ty.describe(), "version": ic.ver, "file_version": ic.file_ver, "writer_type": ic.writer.map(|w| w.ty.rust()), "container": format!("{:?}", ic.c), "side": side,
+            "devs": plan.devs.iter().map(|(i, d)| json!([i, format!("{:?}", d)])).collect::<Vec<_>>(), "chunks": plan.chunks, "sticky": plan.sticky, "value": to_json(ic.val), "message": msg}),
     ));
 }
 
@@ -427,7 +442,11 @@ fn plaintext(c: Container, bytes: &[u8]) -> Option<Vec<u8>> {
 fn run_write(ic: &IoCase, plan: Plan, reference: &[u8], out: &mut Vec<Finding>, st: &mut Stats) {
     let budget = 10 * reference.len() + 1000;
     let mut w = FaultW::new(plan.clone(), budget);
+    // an operation that never comes back (and makes no calls the budget could count) ends the child
+    // with SIGALRM; the parent reports the recorded state as a hang
+    vcommon::child::arm(180);
     let res = ic.e.ops.save(ic.c, ic.ver, Ctx::Single, std::slice::from_ref(ic.val), &mut w);
+    vcommon::child::arm(0);
     st.add("C08.executions", 1);
     st.add("transitions", 1);
     if w.fired > 0 || !plan.chunks.is_empty() {
@@ -452,7 +471,8 @@ fn run_write(ic: &IoCase, plan: Plan, reference: &[u8], out: &mut Vec<Finding>, 
         if res.is_ok() && !(only_zero && complete) {
             io_fail(out, "write_failure_reported_as_success", ic, "write", &plan, "the writer failed but save returned Ok".into());
         }
-        if ic.c != Container::Encrypted && !reference.starts_with(&w.accepted) {
+        // (a transient error leaves a hole when destructors keep writing: only judged for persistent ones)
+        if plan.sticky && ic.c != Container::Encrypted && !reference.starts_with(&w.accepted) {
             io_fail(out, "accepted_bytes_not_a_prefix", ic, "write", &plan, format!("accepted {} is not a prefix of {}", hex(&w.accepted), hex(reference)));
         }
     } else {
@@ -470,15 +490,22 @@ fn run_write(ic: &IoCase, plan: Plan, reference: &[u8], out: &mut Vec<Finding>, 
 }
 
 fn run_read(ic: &IoCase, plan: Plan, file: &[u8], out: &mut Vec<Finding>, st: &mut Stats) {
+    let want = canon(&ic.e.ty, ic.val);
+    run_read_want(ic, plan, file, &want, out, st)
+}
+/// `want`: the value a fault-free read of `file` yields
+fn run_read_want(ic: &IoCase, plan: Plan, file: &[u8], want: &Val, out: &mut Vec<Finding>, st: &mut Stats) {
+    let want = want.clone();
     let budget = 10 * file.len() + 1000;
     let mut r = FaultR::new(file, plan.clone(), budget);
-    let res = ic.e.ops.load(ic.c, ic.ver, Ctx::Single, &mut r);
+    vcommon::child::arm(180);
+    let res = ic.e.ops.load(ic.c, ic.load_ver(), Ctx::Single, &mut r);
+    vcommon::child::arm(0);
     st.add("C08.executions", 1);
     st.add("transitions", 1);
     if r.fired > 0 || !plan.chunks.is_empty() {
         st.add("C08.deviation_fired", 1);
     }
-    let want = canon(&ic.e.ty, ic.val);
     if r.hung {
         io_fail(out, "hang", ic, "read", &plan, format!("more than {} calls on the reader", budget));
         return;
@@ -512,7 +539,7 @@ pub fn io_case(e: &Entry, val: &Val, thorough: bool, out: &mut Vec<Finding>, st:
         if !begin(d, "io", &e.ty.rust(), &format!("{:?}", c), val) {
             continue;
         }
-        let ic = IoCase { e, val, ver, c };
+        let ic = IoCase { e, val, ver, file_ver: ver, c, writer: None };
         // fault-free reference
         let mut w0 = FaultW::new(Plan::default(), usize::MAX);
         if e.ops.save(c, ver, Ctx::Single, std::slice::from_ref(val), &mut w0).is_err() {
@@ -570,6 +597,45 @@ pub fn io_case(e: &Entry, val: &Val, thorough: bool, out: &mut Vec<Finding>, st:
                 run_read(&ic, Plan { devs: vec![(i, dv)], chunks: vec![], sticky: true }, &reference, out, st);
             }
         }
+        // transient hard errors: exactly one call fails, the stream works again afterwards (an
+        // error that is swallowed somewhere is then not re-discovered by the next call)
+        for dv in Dev::ALL.into_iter().filter(|d| !d.benign() && *d != Dev::Zero) {
+            for i in 0..nw + 1 {
+                run_write(&ic, Plan { devs: vec![(i, dv)], chunks: vec![], sticky: false }, &reference, out, st);
+            }
+            for i in 0..nr + 1 {
+                run_read(&ic, Plan { devs: vec![(i, dv)], chunks: vec![], sticky: false }, &reference, out, st);
+            }
+        }
+        // files of every OLDER data version read by the newest program (removed fields are skipped,
+        // added ones defaulted, converted ones converted): one read deviation at every call index;
+        // the expected value is what the fault-free read of that file yields
+        for k in 0..ver {
+            let mut wk = FaultW::new(Plan::default(), usize::MAX);
+            if e.ops.save(c, k, Ctx::Single, std::slice::from_ref(val), &mut wk).is_err() {
+                continue; // value not representable at version k
+            }
+            let old_file = wk.accepted.clone();
+            let ick = IoCase { e, val, ver, file_ver: k, c, writer: None };
+            let mut rk = FaultR::new(&old_file, Plan::default(), usize::MAX);
+            let Ok(l) = e.ops.load(c, ick.load_ver(), Ctx::Single, &mut rk) else { continue };
+            let Some(first) = l.vals.first() else { continue };
+            let want_k = canon(&e.ty, first);
+            st.add("C08.old_version_files", 1);
+            for i in 0..rk.calls + 2 {
+                for dv in Dev::ALL {
+                    run_read_want(&ick, Plan { devs: vec![(i, dv)], chunks: vec![], sticky: true }, &old_file, &want_k, out, st);
+                }
+            }
+            for dv in Dev::ALL.into_iter().filter(|d| !d.benign() && *d != Dev::Zero) {
+                for i in 0..rk.calls + 1 {
+                    run_read_want(&ick, Plan { devs: vec![(i, dv)], chunks: vec![], sticky: false }, &old_file, &want_k, out, st);
+                }
+            }
+            for chunks in [vec![1], vec![3]] {
+                run_read_want(&ick, Plan { devs: vec![], chunks, sticky: true }, &old_file, &want_k, out, st);
+            }
+        }
         if thorough {
             // two deviations (every ordered pair of call indices, every pair of kinds); big
             // operations are bounded to the first 40 calls of the second deviation
@@ -591,6 +657,75 @@ pub fn io_case(e: &Entry, val: &Val, thorough: bool, out: &mut Vec<Finding>, st:
                     }
                 }
             }
+        }
+    }
+}
+
+/// (newest definition, older definition that wrote the file, value of the older definition)
+pub struct HistPair<'a> {
+    node: &'a Entry,
+    anc: &'a Entry,
+    a_ver: u32,
+    n_ver: u32,
+    val: Val,
+}
+/// pairs of the history family for C08: every definition whose last edit removed a field (the
+/// skipped bytes of a removed field are read and thrown away) against its parent and its root,
+/// and a spread selection of the others
+pub fn c08_hist_pairs<'a>(entries: &'a [Entry], thorough: bool) -> Vec<HistPair<'a>> {
+    let nodes = vmodel::hist::hist_tree(false);
+    let by: std::collections::HashMap<String, &Entry> = entries.iter().filter(|e| e.family == "hist").map(|e| (e.ty.rust(), e)).collect();
+    let mut out = vec![];
+    for (i, n) in nodes.iter().enumerate() {
+        let Some(par) = n.parent else { continue };
+        let is_remove = matches!(n.edit, Some(vmodel::hist::Edit::Remove { .. }));
+        if !(is_remove || i % if thorough { 2 } else { 6 } == 0) {
+            continue;
+        }
+        let path = vmodel::hist::path_to(&nodes, i);
+        let mut ancs = vec![par, path[0]];
+        ancs.dedup();
+        for a in ancs {
+            let (Some(ne), Some(ae)) = (by.get(&n.ty.rust()), by.get(&nodes[a].ty.rust())) else { continue };
+            let vals = vmodel::values::values(&nodes[a].ty, 8);
+            let Some(v) = vals.last() else { continue };
+            out.push(HistPair { node: ne, anc: ae, a_ver: nodes[a].depth, n_ver: n.depth, val: v.clone() });
+        }
+    }
+    out
+}
+
+/// a file written by an older definition, read by the newest one under read faults: one
+/// persistent deviation of every kind and one transient hard error at every call index
+pub fn io_hist_case(p: &HistPair, out: &mut Vec<Finding>, st: &mut Stats, d: &mut Driver) {
+    for c in CONTAINERS.into_iter().chain([Container::Bare]) {
+        if !begin(d, "io_hist", &p.node.ty.rust(), &format!("{:?}", c), &p.val) {
+            continue;
+        }
+        let mut wk = FaultW::new(Plan::default(), usize::MAX);
+        if p.anc.ops.save(c, p.a_ver, Ctx::Single, std::slice::from_ref(&p.val), &mut wk).is_err() {
+            continue;
+        }
+        let old_file = wk.accepted.clone();
+        let ick = IoCase { e: p.node, val: &p.val, ver: p.n_ver, file_ver: p.a_ver, c, writer: Some(p.anc) };
+        let mut rk = FaultR::new(&old_file, Plan::default(), usize::MAX);
+        let Ok(l) = p.node.ops.load(c, ick.load_ver(), Ctx::Single, &mut rk) else { continue };
+        let Some(first) = l.vals.first() else { continue };
+        let want = canon(&p.node.ty, first);
+        st.add("C08.old_version_files", 1);
+        st.add("C08.cases", 1);
+        for i in 0..rk.calls + 2 {
+            for dv in Dev::ALL {
+                run_read_want(&ick, Plan { devs: vec![(i, dv)], chunks: vec![], sticky: true }, &old_file, &want, out, st);
+            }
+        }
+        for dv in Dev::ALL.into_iter().filter(|d| !d.benign() && *d != Dev::Zero) {
+            for i in 0..rk.calls + 1 {
+                run_read_want(&ick, Plan { devs: vec![(i, dv)], chunks: vec![], sticky: false }, &old_file, &want, out, st);
+            }
+        }
+        for chunks in [vec![1], vec![3]] {
+            run_read_want(&ick, Plan { devs: vec![], chunks, sticky: true }, &old_file, &want, out, st);
         }
     }
 }
@@ -653,10 +788,34 @@ fn big_vals(thorough: bool) -> Vec<Val> {
 pub fn items(prop: &str, entries: &[Entry], thorough: bool) -> usize {
     match prop {
         "C07" => cases(entries, thorough, 3).len() + file_cases().len() + big_vals(thorough).len() + big_strings(thorough).len(),
-        "C08" => cases(entries, thorough, 1).len().min(if thorough { 120 } else { 40 }) + 1 + file_cases().len(),
+        "C08" => c08_cases(entries, thorough).len() + 1 + file_cases().len() + c08_hist_pairs(entries, thorough).len(),
         "C14" => c14_cases(entries, thorough).len() + file_cases().len() + big_vals(thorough).len(),
         _ => 0,
     }
+}
+
+/// the (entry, value) cases of C08: an evenly spread selection of `cases`, plus the types with
+/// version attributes (their older-version files are read under faults too)
+fn c08_cases<'a>(entries: &'a [Entry], thorough: bool) -> Vec<(&'a Entry, Val)> {
+    let cs = cases(entries, thorough, 1);
+    let n = cs.len().min(if thorough { 120 } else { 40 });
+    let step = (cs.len() / n.max(1)).max(1);
+    let mut out: Vec<(&Entry, Val)> = (0..n).map(|pos| cs[(pos * step).min(cs.len() - 1)].clone()).collect();
+    let mut k = 0;
+    for e in entries.iter().filter(|e| e.family == "types" && e.ty.max_version() > 0) {
+        k += 1;
+        if !thorough && k % 2 == 0 {
+            continue;
+        }
+        if out.iter().any(|(x, _)| x.ty.rust() == e.ty.rust()) {
+            continue;
+        }
+        let vals = vmodel::values::values(&e.ty, 16);
+        if let Some(v) = vals.last() {
+            out.push((e, v.clone()));
+        }
+    }
+    out
 }
 
 fn c14_cases(entries: &[Entry], thorough: bool) -> Vec<(&Entry, Val)> {
@@ -695,13 +854,17 @@ pub fn run_item(prop: &str, entries: &[Entry], thorough: bool, pos: usize, d: &m
             }
         }
         "C08" => {
-            let cs = cases(entries, thorough, 1);
-            let n = cs.len().min(if thorough { 120 } else { 40 });
-            let step = (cs.len() / n).max(1);
+            let cs = c08_cases(entries, thorough);
+            let n = cs.len();
             if pos < n {
-                let (e, v) = &cs[(pos * step).min(cs.len() - 1)];
+                let (e, v) = &cs[pos];
                 io_case(e, v, thorough, &mut out, st, d);
                 sample = json!({"type": e.ty.describe(), "value": to_json(v)});
+            } else if pos > n + fcs.len() {
+                let hp = c08_hist_pairs(entries, thorough);
+                let p = &hp[pos - n - fcs.len() - 1];
+                io_hist_case(p, &mut out, st, d);
+                sample = json!({"type": p.node.ty.describe(), "file_written_by": p.anc.ty.describe(), "value": to_json(&p.val)});
             } else if pos > n {
                 let fc = &fcs[pos - n - 1];
                 dev_full_case(fc, &mut out, st, d);
@@ -757,14 +920,18 @@ pub fn replay_case(entries: &[Entry], case: &Value, out: &mut Vec<Finding>, st: 
             let val = crate::valjson::from_json(&case["value"]);
             let c = container(case["container"].as_str().unwrap_or(""));
             let ver = case["version"].as_u64().unwrap_or(0) as u32;
-            let ic = IoCase { e, val: &val, ver, c };
+            let file_ver = case["file_version"].as_u64().map(|x| x as u32).unwrap_or(ver);
+            let writer = case["writer_type"].as_str().map(|w| find(w));
+            let ic = IoCase { e, val: &val, ver, file_ver, c, writer };
             let plan = Plan {
                 devs: case["devs"].as_array().map(|a| a.iter().map(|x| (x[0].as_u64().unwrap() as usize, dev_of(x[1].as_str().unwrap()))).collect()).unwrap_or_default(),
                 chunks: case["chunks"].as_array().map(|a| a.iter().map(|x| x.as_u64().unwrap() as usize).collect()).unwrap_or_default(),
-                sticky: true,
+                sticky: case["sticky"].as_bool().unwrap_or(true),
             };
             let mut w0 = FaultW::new(Plan::default(), usize::MAX);
-            e.ops.save(c, ver, Ctx::Single, std::slice::from_ref(&val), &mut w0).unwrap_or_else(|e| vcommon::machinery_error(&format!("replay: fault-free save failed {:?}", e)));
+            if writer.is_none() {
+                e.ops.save(c, ver, Ctx::Single, std::slice::from_ref(&val), &mut w0).unwrap_or_else(|e| vcommon::machinery_error(&format!("replay: fault-free save failed {:?}", e)));
+            }
             let reference = w0.accepted.clone();
             println!("fault-free: {} writer calls, {} bytes", w0.calls, reference.len());
             if case["side"].as_str() == Some("write") {
@@ -772,6 +939,15 @@ pub fn replay_case(entries: &[Entry], case: &Value, out: &mut Vec<Finding>, st: 
                 let res = e.ops.save(c, ver, Ctx::Single, std::slice::from_ref(&val), &mut w);
                 println!("with plan {:?}: result {:?}, {} calls, {} deviations delivered, accepted {} bytes (complete: {})", plan, res.as_ref().map_err(op_msg), w.calls, w.fired, w.accepted.len(), w.accepted == reference);
                 run_write(&ic, plan, &reference, out, st);
+            } else if file_ver != ver {
+                let mut wk = FaultW::new(Plan::default(), usize::MAX);
+                writer.unwrap_or(e).ops.save(c, file_ver, Ctx::Single, std::slice::from_ref(&val), &mut wk).unwrap_or_else(|e| vcommon::machinery_error(&format!("replay: fault-free save at the old version failed {:?}", e)));
+                let old_file = wk.accepted.clone();
+                let mut rk = FaultR::new(&old_file, Plan::default(), usize::MAX);
+                let l = e.ops.load(c, ic.load_ver(), Ctx::Single, &mut rk).unwrap_or_else(|e| vcommon::machinery_error(&format!("replay: fault-free load of the old file failed {:?}", e)));
+                let want_k = canon(&e.ty, &l.vals[0]);
+                println!("old-version file: {} bytes, fault-free read gives {}", old_file.len(), want_k.short());
+                run_read_want(&ic, plan, &old_file, &want_k, out, st);
             } else {
                 run_read(&ic, plan, &reference, out, st);
             }
